@@ -10,6 +10,9 @@ for d in sorted(glob.glob(os.path.join(HERE, "seeded", "*"))):
     if only and not any(name.startswith(o) for o in only):
         continue
     m = json.load(open(os.path.join(d, "meta.json")))
+    if m.get("obsolete"):
+        print(f"{name:8s} obsolete: {m['obsolete'][:120]}", flush=True)
+        continue
     pid, var = name.split("-")
     caught = [c for c, r in m["checks"].items() if r["verdict"] == "VIOLATION"]
     checks = sorted(set(caught))
